@@ -11,6 +11,12 @@ CHECKS = {
         text="TLC explores the handler as a transition system over every text (<= 6/8 symbols over 14 prefix/suffix/stop configurations) and every chunking, checking StreamImpl => StreamIdeal; the same universe is replayed through the real StreamingHandler and the recorded outcome sets are judged by the TLA+ judge (chunking invariance, completion equality, ideal text). Exhaustive within the bound, which is what 'for every chunking' asks for.",
         note="trusted: harness driver (tokens via on_llm_new_token/on_llm_end), TLC; texts over small alphabets built from the pattern characters; strip/cut order left open as in the statement",
         design_ref="6/C18"),
+    "C04": dict(
+        category="model_checking", engine="MatchRules",
+        technique="documented matching rules transcribed as a recursive TLA+ operator; TLC enumerates the bounded (pattern,value) space and mutation-derived values; every pair replayed into run_to_completion; recorded observations judged by TLC",
+        text="TLC enumerates every (pattern, value) pair of a bounded space (7 atoms, 3 regexes, lists/sets/dicts, depth <= 1; thorough: depth-2 patterns with values derived by <= 2 Add/Drop/Swap/Alter/Nest mutation steps explored as a transition system) and the event-level rule cases; each is executed by the real interpreter (`match Probe(v=$p)`), and the recorded advance/no-advance observations are judged by the TLA+ rule M / EventMatch. Exhaustive within the bound.",
+        note="trusted: MatchRules.tla as the reading of the documented rules (lists as subsequence, as the statement says); bool-vs-int pairs not judged; patterns injected through a global variable, a sample through literal source",
+        design_ref="6/C04"),
 }
 
 NOT_YET = "check not built yet in this round (planned, see DESIGN.md section 6)"
